@@ -758,7 +758,7 @@ fn thread_op(sh: ShPtr, tid: usize, aid: u32, line: &str) -> String {
       }
       body
     }
-    "discard_freelist" | "set_minseg" | "inc_discarded" | "flush" | "rd" | "rd_var" | "checksum" => {
+    "discard_freelist" | "set_minseg" | "inc_discarded" | "flush" | "rd" | "rd_var" | "checksum" | "slices" => {
       let mut sc = Case::scratch(aid, my_arena);
       let body = sc.body(line);
       let _ = sc.dismantle();
